@@ -278,6 +278,8 @@ func genC06(r *vc.Run) {
 	}
 	genC06Decoders(r)
 	genC06Points(r, insts)
+	// round level: boundary encodings injected into real protocol runs (child processes)
+	genFaults(r, "C06")
 }
 
 func sortStrings(s []string) {
